@@ -27,9 +27,9 @@ pub enum Op {
     /// close and open again with other merge thresholds (they are a parameter of every open)
     ReopenAs(Thr),
     /// set the n keys f00000 .. to generation-g values (COUNT thresholds: thousands of keys)
-    Fill(u16, u8),
+    Fill(u32, u8),
     /// delete every step-th of the n keys f00000 ..
-    Drain(u16, u8),
+    Drain(u32, u8),
 }
 
 pub fn bulk_key(i: usize) -> Vec<u8> {
@@ -49,6 +49,8 @@ pub fn key_bytes(k: u8) -> Vec<u8> {
         3 => b"\0\xff\r\n".to_vec(),
         4 => vec![b'K'; 300],
         5 => b"c".to_vec(),
+        // a key larger than the 8 KiB write buffers (hint records hold keys, not values)
+        6 => vec![b'Q'; 9000],
         NEVER_KEY => b"never-written".to_vec(),
         _ => vec![b'k', k],
     }
@@ -86,8 +88,8 @@ impl Op {
             "merge" => Some(Op::Merge),
             "reopen" => Some(Op::Reopen),
             "reopen_as" => Some(Op::ReopenAs(Thr::parse(a.get(1)?.as_str()?))),
-            "fill" => Some(Op::Fill(a.get(1)?.as_u64()? as u16, a.get(2)?.as_u64()? as u8)),
-            "drain" => Some(Op::Drain(a.get(1)?.as_u64()? as u16, a.get(2)?.as_u64()? as u8)),
+            "fill" => Some(Op::Fill(a.get(1)?.as_u64()? as u32, a.get(2)?.as_u64()? as u8)),
+            "drain" => Some(Op::Drain(a.get(1)?.as_u64()? as u32, a.get(2)?.as_u64()? as u8)),
             _ => None,
         }
     }
@@ -497,8 +499,9 @@ fn check_counters(dump: &Dump, files: &BTreeMap<String, Vec<u8>>, model: &Kv, ou
     if idx_keys != model_keys {
         out.push(("C19:index-keys-differ-from-model".into(), format!("index has {:?}, model has {:?}", idx_keys.iter().map(|k| hex(k)).collect::<Vec<_>>(), model_keys.iter().map(|k| hex(k)).collect::<Vec<_>>()), Some(step)));
     }
+    let by_pos: std::collections::HashMap<(u64, u64), &DataEntry> = decoded.iter().flat_map(|(id, es)| es.iter().map(move |e| ((*id, e.pos), e))).collect();
     for (k, f, p, l) in &dump.keydir {
-        let ent = decoded.get(f).and_then(|es| es.iter().find(|e| e.pos == *p && e.len == *l));
+        let ent = by_pos.get(&(*f, *p)).copied().filter(|e| e.len == *l);
         match ent {
             Some(e) if &e.key == k && e.value.as_ref() == model.get(k) => {}
             Some(e) if &e.key == k && !model.contains_key(k) => {}
@@ -506,9 +509,10 @@ fn check_counters(dump: &Dump, files: &BTreeMap<String, Vec<u8>>, model: &Kv, ou
         }
     }
     let mut truth: BTreeMap<u64, (u64, u64, u64)> = BTreeMap::new();
+    let live_set: std::collections::HashSet<(&Vec<u8>, u64, u64, u64)> = dump.keydir.iter().map(|(k, f, p, l)| (k, *f, *p, *l)).collect();
     for (id, ents) in &decoded {
         for e in ents {
-            let live = dump.keydir.iter().any(|(k, f, p, l)| k == &e.key && f == id && *p == e.pos && *l == e.len);
+            let live = live_set.contains(&(&e.key, *id, e.pos, e.len));
             let t = truth.entry(*id).or_default();
             if live {
                 t.0 += 1
@@ -1137,6 +1141,11 @@ pub fn plan(prop: &str, tier: Tier, seeds: &[u64]) -> Vec<Sweep> {
                 }
             }
         }
+        // and with the wall clock running backwards (partial merges under SIZE100 / FRAG leave an older
+        // file whose entries carry LATER timestamps than the copies in the hinted merge output)
+        for (mfs, thr) in [(0u64, Thr::Size100), (60, Thr::Size100), (0, Thr::Frag), (60, Thr::All), (1000, Thr::Dead)] {
+            cfgs.push(Cfg { mfs, thr, cache: 4, conc: 2, seed: seeds[0], sync_always: false, clock: 1 });
+        }
         sweeps.push(Sweep { name: "scale".into(), alphabet: vec![], depth: 0, cfgs, oracles, keys, trailing_reopens: 0, preload: vec![], words });
     };
     // COUNT thresholds: thousands of keys in one store (a merge pass over > 4096 entries, > 65 536
@@ -1144,7 +1153,7 @@ pub fn plan(prop: &str, tier: Tier, seeds: &[u64]) -> Vec<Sweep> {
     let bulk = |sweeps: &mut Vec<Sweep>, oracles: Oracles| {
         // the per-state oracles other than reads are quadratic in the number of entries: smaller counts there
         let heavy = oracles.c19 || oracles.c12 || oracles.c13;
-        let ns: Vec<u16> = if heavy { if tier == Tier::Quick { vec![257, 2500] } else { vec![255, 256, 257, 1000, 4097] } } else if tier == Tier::Quick { vec![257, 4097, 10_000] } else { vec![255, 256, 257, 1000, 4095, 4096, 4097, 10_000, 40_000, 65_535] };
+        let ns: Vec<u32> = if heavy { if tier == Tier::Quick { vec![257, 4100] } else { vec![255, 256, 257, 1000, 4095, 4096, 4097, 10_000, 66_000] } } else if tier == Tier::Quick { vec![257, 4097, 70_000] } else { vec![255, 256, 257, 1000, 4095, 4096, 4097, 10_000, 65_535, 65_536, 65_537, 140_000] };
         let mut words = vec![];
         for &n in &ns {
             words.push(vec![Op::Fill(n, 1), Op::Merge, Op::Reopen, Op::Merge]);
@@ -1211,6 +1220,7 @@ pub fn plan(prop: &str, tier: Tier, seeds: &[u64]) -> Vec<Sweep> {
             // the words' entries land in files 8, 9, 10, 11, ... (across the 9 / 10 boundary)
             sweeps.push(Sweep { name: "many-files-from-id-8".into(), alphabet: vec![SET_A1, SET_A22, SET_B1, DEL_A, DEL_B, Op::Reopen], depth: tier.pick(5, 6), cfgs: core_grid(&seeds[..1], &[Thr::None], &[0]), oracles: o, keys: main_keys.clone(), trailing_reopens: 2, preload: vec![Op::Reopen; 8], words: vec![] });
             scale(&mut sweeps, o);
+            bulk(&mut sweeps, Oracles { kv: true, ..Default::default() });
             // histories whose data files include merge outputs (and their hint files)
             sweeps.push(Sweep { name: "with-merges".into(), alphabet: vec![SET_A1, SET_A22, SET_B1, DEL_A, Op::Merge, Op::Reopen], depth: tier.pick(5, 6), cfgs: core_grid(&seeds[..1], &[Thr::All, Thr::Dead, Thr::Size27], &[0, 60]), oracles: o, keys: main_keys.clone(), trailing_reopens: 2, preload: vec![], words: vec![] });
             sweeps.push(Sweep { name: "clock".into(), alphabet: vec![SET_A1, SET_A22, SET_B1, DEL_A, DEL_B, Op::Reopen], depth: tier.pick(4, 6), cfgs: with_clocks(core_grid(&seeds[..1], &[Thr::None], &mfss)), oracles: o, keys: main_keys.clone(), trailing_reopens: 2, preload: vec![], words: vec![] });
@@ -1361,7 +1371,9 @@ fn record(sh: &mut Shard, case: &WordCase, r: WordResult, dir: &Path) {
             if !seen.insert(class.clone()) {
                 continue;
             }
-            sh.violate(Violation { class: classify(&class, case, step), msg: format!("{} | cfg {:?} | {}word: {} | step {:?}", msg, case.cfg, if case.preload.is_empty() { String::new() } else { format!("first (unchecked): {} | ", show_word(case.preload)) }, show_word(case.word), step), case: case.to_json(step) });
+            let msg = if msg.len() > 700 { format!("{} ... [{} characters]", msg.chars().take(700).collect::<String>(), msg.len()) } else { msg };
+            let shown_word = { let t = show_word(case.word); if t.len() > 900 { format!("{} ... [{} operations]", t.chars().take(900).collect::<String>(), case.word.len()) } else { t } };
+            sh.violate(Violation { class: classify(&class, case, step), msg: format!("{} | cfg {:?} | {}word: {} | step {:?}", msg, case.cfg, if case.preload.is_empty() { String::new() } else { format!("first (unchecked): {} | ", show_word(case.preload)) }, shown_word, step), case: case.to_json(step) });
         }
     }
 }
